@@ -2865,6 +2865,23 @@ def _tiling(ctx, E, q, seq, fn):
                     cand = (nm, symc, a0)
                     break
             if cand is None:
+                loop_syms = [y for y in head.d["env"].values() if isinstance(y, tuple) and y[:1] == ("sym",)]
+                continuing = [x for x in grp if x.kind == "loopend" and x.d["loop"] == L]
+                if continuing and not any(M.mentions(a0, y) for y in loop_syms):
+                    # the position a pass starts at does not change from pass to pass, yet a pass can be followed by another one
+                    v.bad({"every pass writes from": show(a0), "loop": show(head.d["test"])[:120],
+                           "consequence": "the same elements are written again in the next pass (nothing advances the position)"}, head.node)
+                    return None
+                # the one variable the position depends on, when the first pass provably does not start where the writes before the loop stopped
+                for nm, x in sorted(head.d["env"].items()):
+                    symc = x if isinstance(x, tuple) and x[:1] == ("sym",) else None
+                    pre_ = head.d["pre"].get(nm)
+                    if symc is not None and (isinstance(pre_, Lin) or (isinstance(pre_, tuple) and pre_[:1] == ("sym",))) and M.mentions(a0, symc) \
+                            and not any(M.mentions(a0, y) for y in loop_syms if y != symc):
+                        r, w = _differs(lin(M.subst(a0, symc, lin(pre_))) - wp, head.facts)
+                        if r is True:
+                            v.bad({"the first pass starts at": show(lin(M.subst(a0, symc, lin(pre_)))), "written up to": show(wp), "differ for": w}, head.node)
+                            return None
                 v.unknown({"loop": show(head.d["test"])[:120], "position written first in a pass": show(a0), "written before the loop up to": show(wp)}, head.node)
                 return None
             nm, symc, a0 = cand
